@@ -1,7 +1,7 @@
 /-
 Shared vocabulary of the verb models: field lookup, grouping key (pkg/mlrval/mlrmap_accessors.go
-GetSelectedValuesJoined: the COMMA-join of the selected values' texts; a record lacking one of
-the fields has no key), insertion-ordered association maps (pkg/lib/ordered_map.go).
+GetSelectedValuesJoined: the comma-join of the selected values' texts with commas and backslashes
+inside a text escaped; a record lacking one of the fields has no key), insertion-ordered association maps (pkg/lib/ordered_map.go).
 A verb is modelled as the fold of its per-record `Transform` followed by its end-of-stream
 action, exactly as `runSingleTransformerBatch` drives it.
 -/
@@ -12,9 +12,22 @@ namespace Verbs
 def get (r : Rec) (k : Bytes) : Option Bytes := (r.find? (·.1 == k)).map (·.2)
 def has (r : Rec) (k : Bytes) : Bool := r.any (·.1 == k)
 
+/-- One component of a grouping key (`writeJoinComponent`): commas and backslashes inside the
+text are backslash-escaped. -/
+def escComp : Bytes → Bytes
+  | [] => []
+  | c :: rest => if c = 44 ∨ c = 92 then 92 :: c :: escComp rest else c :: escComp rest
+
+/-- The grouping key of a list of texts (`GetSelectedValuesJoined`, `GetKeysJoined`, …): the
+escaped components joined with commas.  Injective on lists of equal length (`Props/C11`). -/
+def joinKey : List Bytes → Bytes
+  | [] => []
+  | [v] => escComp v
+  | v :: w :: rest => escComp v ++ 44 :: joinKey (w :: rest)
+
 /-- `GetSelectedValuesJoined`. -/
 def groupKey (fields : List Bytes) (r : Rec) : Option Bytes :=
-  if fields.isEmpty then some [] else (fields.mapM (get r)).map (Split.join [44])
+  if fields.isEmpty then some [] else (fields.mapM (get r)).map joinKey
 
 /-- Insertion-ordered map (first-appearance order). -/
 abbrev OMap (α : Type) := List (Bytes × α)
